@@ -689,11 +689,14 @@ func init() {
 	register(&PropDef{
 		ID:    "C19",
 		Title: "Debugging is transparent and step/next/finish/continue stop where documented",
-		Explanation: "Decided: B1 table agreement: with the single stop test `env.CallDepth < run.DebugDepth` of singleStep, the depths requested by the commands (step: MaxInt, next: CallDepth+1, finish: CallDepth, continue: 0) give exactly the four documented behaviours (any depth / same or shallower / shallower / breakpoints only) — the checker derives the class from the operator and the offsets; singleStep executes exactly one statement per call and reaches the debugger hook under the stop test; applyDebugOp turns single-stepping on iff the depth is > 0 and records it; a function frame's CallDepth is its caller's + 1; B2 a body that falls off its end terminates while single-stepping (the end-of-code sentinel signals the return only when no signal at all is pending, so singleStep raises SigReturn at the last index of env.Code); " +
+		Explanation: "Decided: B1 table agreement: with the single stop test `env.CallDepth < run.DebugDepth` of singleStep, the depths requested by the commands (step: MaxInt, next: CallDepth+1, finish: CallDepth, continue: 0) give exactly the four documented behaviours (any depth / same or shallower / shallower / breakpoints only) — the checker derives the class from the operator and the offsets; singleStep executes exactly one statement per call and reaches the debugger hook under the stop test; applyDebugOp turns single-stepping on iff the depth is > 0 and records it; a function frame's CallDepth is its caller's + 1; a DebugOp returned without asking the user (synthetic statements) keeps Depth = run.DebugDepth; B2 a body that falls off its end terminates while single-stepping (the end-of-code sentinel signals the return only when no signal at all is pending, so singleStep raises SigReturn at the last index of env.Code); N4 every compiler recorded in a frame for the debugger (Env.DebugComp, or the debugComp argument of the ~600 newEnv4Func call sites) is a variable that is nil unless assigned under a test of exactly base.OptDebugger; X5 (shared with C07) a SigDefer raised by a stepped defer statement is forwarded to a region that installs the deferred function; " +
 			"N2 confinement of the debugger's state (shared with C18): nothing the compiler or executor computes depends on OptDebugger or Env.DebugComp. Not decided: the stop sequence of a concrete run.",
 		Assumptions: []string{"frames are pushed and popped as checked by C06 (new/free pairing)"},
-		Rules:       []func(*Ctx){ruleDebuggerTable, ruleOptionConfinement, ruleDebugTermination},
+		Rules:       []func(*Ctx){ruleDebuggerTable, ruleOptionConfinement, ruleDebugTermination, ruleDebugCompRecorded, func(c *Ctx) { ruleDeferProtocol(c, "X5-defer-protocol") }},
 		Mutants: []Mutant{
+			{Name: "skipped-statement-narrows-depth", File: "fast/debug/api.go", Old: "return DebugOp{Depth: env.Run.DebugDepth}", New: "return DebugOp{Depth: env.CallDepth}"},
+			{Name: "func0ret0-records-compiler-under-other-flag", File: "fast/func0ret0.go", Old: "if c.Globals.Options&base.OptDebugger != 0 {", New: "if c.Globals.Options&base.OptDebugDebugger != 0 {"},
+			{Name: "stepped-defer-not-installed", File: "fast/code.go", Old: "if run.Signals.IsEmpty() || sig == base.SigDefer {\n\t\t\tgoto again", New: "if run.Signals.IsEmpty() {\n\t\t\tgoto again"},
 			{Name: "stepping-never-leaves-body-without-return", File: "fast/debug.go", Old: "\tif env.IP == len(env.Code)-1 && run.Signals.Sync == base.SigNone {", New: "\tif false && env.IP == len(env.Code)-1 && run.Signals.Sync == base.SigNone {"},
 			{Name: "next-behaves-like-finish", File: "fast/debug/cmd.go", Old: "return DebugOp{d.env.CallDepth + 1, nil}", New: "return DebugOp{d.env.CallDepth, nil}", Canary: true},
 			{Name: "stop-test-inclusive", File: "fast/debug.go", Old: "if env.CallDepth < run.DebugDepth {", New: "if env.CallDepth <= run.DebugDepth {", Canary: true},
